@@ -21,7 +21,10 @@ RULE = (
     "fix); a no-flag run determines the pending categories k; for *every* permutation of them (k! <= 24) "
     "one session per category is run in that order from a pristine copy, plus the all-at-once session; "
     "ast.dump(ast.parse(final file)) must be identical across all of them. Exhaustive over orders for each "
-    "generated program. non-trivial = k >= 2 and at least one site with two pending categories."
+    "generated program. non-trivial = k >= 2 and at least one site with two pending categories. "
+    "Arm orders_assert: the same with plain `assert` bodies (create, fix and update make a failing "
+    "comparison succeed so that the rest of the test is still observed; orders which run trim before a "
+    "pending fix/create are left out because a trim-only run legitimately stops at the failing assert)."
 )
 ASSUMPTIONS = [
     "recording bodies; deterministic tests; each session in a fresh directory",
@@ -52,11 +55,22 @@ def _dump(b, label, src0):
         raise Violation("unparsable", f"{label}: {e}\n--- original\n{src0}\n--- result\n{b.decode('utf-8', 'replace')}")
 
 
-def check(case):
+def _as_record(prog):
+    import copy
+
+    q = copy.deepcopy(prog)
+    for s in q["sites"]:
+        s["style"] = "record"
+    return q
+
+
+def check(case, asserting=False):
     prog = case["prog"]
     src, order = gp.render_program(prog)
     b0 = src.encode()
-    probe = _run(b0, (), "probe", src)
+    # the pending categories are determined on the recording twin: without flags an asserting body stops at
+    # its first failing comparison
+    probe = _run(gp.render_program(_as_record(prog))[0].encode() if asserting else b0, (), "probe", src)
     pending = sorted(probe.reported)
     multi = any(len(flags) >= 2 for _pos, flags in probe.per_site)
     if len(pending) < 2:
@@ -65,6 +79,9 @@ def check(case):
     ref = _dump(allatonce, "all-at-once", src)
     n_runs = 1
     for perm in itertools.permutations(pending):
+        if asserting and "trim" in perm and any(c in perm[perm.index("trim"):] for c in ("fix", "create")):
+            # a trim-only run does not make failing comparisons succeed: the test stops there and observes less
+            continue
         cur = b0
         for cat in perm:
             cur = _run(cur, [cat], f"order {perm} step {cat}", src).files_after["test_a.py"]
@@ -74,7 +91,8 @@ def check(case):
             raise Violation("order-dependent",
                             f"pending={pending} order {perm} differs from all-at-once\n--- original\n{src}\n"
                             f"--- all at once\n{allatonce.decode()}\n--- order {perm}\n{cur.decode()}")
-    return {"nontrivial": multi, "classes": [f"k={len(pending)}", "pending=" + ",".join(pending)],
+    return {"nontrivial": multi if not asserting else len(prog["sites"]) >= 2,
+            "classes": [f"k={len(pending)}", "pending=" + ",".join(pending)],
             "extra": {"sessions": n_runs},
             "sample": {"pending": pending, "before": src, "after": allatonce.decode()}}
 
@@ -112,9 +130,20 @@ def check_pytest(case):
             "sample": {"pending": pending, "before": src, "after": together.decode()}}
 
 
+def _strategy_assert(tier):
+    return gp.program_with_prev(tier, max_sites=4, min_sites=2, styles=("assert",), p_missing=0.25,
+                                ops=("eq", "in", "getitem", "le", "ge", "eq")).map(lambda p: {"prog": p})
+
+
+def check_assert(case):
+    return check(case, asserting=True)
+
+
 ARMS = [
     HypArm("orders", _strategy, check, signature=positional_signature,
            budget={"quick": 200, "thorough": 15000}),
+    HypArm("orders_assert", _strategy_assert, check_assert, signature=positional_signature,
+           budget={"quick": 120, "thorough": 8000}),
     HypArm("together_real_session", _strategy, check_pytest, signature=positional_signature,
            budget={"quick": 64, "thorough": 2000}, shrink=False),
 ]
